@@ -89,13 +89,13 @@ func (s plSched) build() core.Schedule {
 	panic("ctor " + s.Ctor)
 }
 
-func mrate(r float64) int { return int(r*1000 + 0.5) }
+func plMrate(r float64) int { return int(r*1000 + 0.5) }
 
 // the succession of simple parts the schedule denotes (docs: instance_step = once(from), then
 // repeatedly a pause of the step duration and once(step))
 func (s plSched) parts() []plPart {
 	mk := func(kind string, from, to float64, step, times int64, d time.Duration) plPart {
-		return plPart{Kind: kind, FromM: mrate(from), ToM: mrate(to), Step: int(step), Times: int(times),
+		return plPart{Kind: kind, FromM: plMrate(from), ToM: plMrate(to), Step: int(step), Times: int(times),
 			Dur: vt.Limbs(int64(d)), durNs: int64(d)}
 	}
 	switch s.Ctor {
@@ -536,14 +536,14 @@ func plRunOne(c plConf, seed int64) plResult {
 
 // ---------------------------------------------------------------- configurations
 
-func ms(n int) time.Duration { return time.Duration(n) * time.Millisecond }
+func plMs(n int) time.Duration { return time.Duration(n) * time.Millisecond }
 
 func plRandRPS(rng *rand.Rand, long bool) plSched {
 	dur := func() time.Duration {
 		if long {
-			return ms(10 + rng.Intn(190))
+			return plMs(10 + rng.Intn(190))
 		}
-		return ms(5 + rng.Intn(76))
+		return plMs(5 + rng.Intn(76))
 	}
 	simple := func() plSched {
 		switch rng.Intn(4) {
@@ -568,12 +568,12 @@ func plRandRPS(rng *rand.Rand, long bool) plSched {
 		return simple()
 	case 10:
 		// a part of unknown length (unlimited) before, between or after parts of known length
-		unl := plSched{Ctor: "unlimited", Dur: ms(2 + rng.Intn(7))}
+		unl := plSched{Ctor: "unlimited", Dur: plMs(2 + rng.Intn(7))}
 		fin := func() plSched {
 			if rng.Intn(2) == 0 {
 				return plSched{Ctor: "once", Times: int64(rng.Intn(5))}
 			}
-			return plSched{Ctor: "const", From: float64(100 + 100*rng.Intn(4)), Dur: ms(5 + rng.Intn(16))}
+			return plSched{Ctor: "const", From: float64(100 + 100*rng.Intn(4)), Dur: plMs(5 + rng.Intn(16))}
 		}
 		switch rng.Intn(3) {
 		case 0:
@@ -593,11 +593,11 @@ func plRandRPS(rng *rand.Rand, long bool) plSched {
 
 // startup profiles with steps of 20..60 ms (slow) or a few ms (fast)
 func plRandStartup(rng *rand.Rand, n int, slow bool) plSched {
-	step := ms(2 + rng.Intn(6))
-	cstep := ms([]int{2, 4, 5, 8}[rng.Intn(4)]) // const parts: 1000/step is an exact rate
+	step := plMs(2 + rng.Intn(6))
+	cstep := plMs([]int{2, 4, 5, 8}[rng.Intn(4)]) // const parts: 1000/step is an exact rate
 	if slow {
-		step = ms(20 + rng.Intn(41))
-		cstep = ms([]int{20, 25, 40, 50}[rng.Intn(4)])
+		step = plMs(20 + rng.Intn(41))
+		cstep = plMs([]int{20, 25, 40, 50}[rng.Intn(4)])
 	}
 	switch rng.Intn(4) {
 	case 0:
@@ -651,7 +651,7 @@ func plRandConf(rng *rand.Rand, focus string) plConf {
 	}
 	if c.Discard && rng.Intn(3) != 0 {
 		// some tokens are already >= 2 s late when they are drawn, some are not
-		c.Past = 2*time.Second - ms(40) + ms(rng.Intn(80))
+		c.Past = 2*time.Second - plMs(40) + plMs(rng.Intn(80))
 	}
 	t := c.RPS.tokens()
 	if c.RPS.hasUnlimited() {
@@ -700,7 +700,7 @@ func plCaseConf(rng *rand.Rand, m map[string]interface{}, idx int) plConf {
 		tick := vt.Int(x)
 		if tick != prev {
 			flush()
-			ks = append(ks, plSched{Ctor: "const", From: 0, Dur: ms(15 * (tick - prev))})
+			ks = append(ks, plSched{Ctor: "const", From: 0, Dur: plMs(15 * (tick - prev))})
 			prev = tick
 		}
 		cnt++
@@ -719,20 +719,20 @@ func plCaseConf(rng *rand.Rand, m map[string]interface{}, idx int) plConf {
 		c.RPS = plSched{Ctor: "once", Times: int64(t)}
 	case 1:
 		// t tokens, one per 2 ms
-		c.RPS = plSched{Ctor: "const", From: 500, Dur: ms(2 * t)}
+		c.RPS = plSched{Ctor: "const", From: 500, Dur: plMs(2 * t)}
 		if t == 0 {
-			c.RPS = plSched{Ctor: "const", From: 0, Dur: ms(3)}
+			c.RPS = plSched{Ctor: "const", From: 0, Dur: plMs(3)}
 		}
 	default:
 		c.RPS = plSched{Ctor: "composite", Kids: []plSched{{Ctor: "once", Times: int64(t / 2)},
-			{Ctor: "const", From: 0, Dur: ms(2)}, {Ctor: "once", Times: int64(t - t/2)}}}
+			{Ctor: "const", From: 0, Dur: plMs(2)}, {Ctor: "once", Times: int64(t - t/2)}}}
 	}
 	if c.RPS.tokens() != t {
 		panic(fmt.Sprintf("case %d: rendered profile %s has %d tokens, want %d", idx, c.RPS, c.RPS.tokens(), t))
 	}
 	c.ShotMax = time.Duration(rng.Intn(3)) * time.Millisecond
 	if c.Discard && rng.Intn(2) == 0 {
-		c.Past = 2*time.Second - ms(3) + ms(rng.Intn(6))
+		c.Past = 2*time.Second - plMs(3) + plMs(rng.Intn(6))
 	}
 	if rng.Intn(3) == 0 {
 		c.ProvDelay = time.Duration(rng.Intn(500)) * time.Microsecond
@@ -748,7 +748,7 @@ func plCaseConfUnknown(rng *rand.Rand, m map[string]interface{}, idx int) plConf
 	tmin := vt.Int(m["tmin"])
 	mm["t"] = tmin
 	c := plCaseConf(rng, mm, idx) // startup, ammo, modes
-	unl := plSched{Ctor: "unlimited", Dur: ms(2 + rng.Intn(3))}
+	unl := plSched{Ctor: "unlimited", Dur: plMs(2 + rng.Intn(3))}
 	fin := plSched{Ctor: "once", Times: int64(tmin)}
 	if rng.Intn(2) == 0 {
 		c.RPS = plSched{Ctor: "composite", Kids: []plSched{fin, unl}}
